@@ -6,6 +6,7 @@ CONSTANTS
   QIndirect = FALSE
   QEventIdx = TRUE
   MaxBufs = 1
+  Adversary = FALSE
   WithNotify = TRUE
   Bug = "none"
 INVARIANTS
